@@ -40,25 +40,32 @@ RULE = ('Hypothesis-generated fit problems: model family from {exp(-m x), A exp(
         '(list or dict), autograd / num_grad, Levenberg-Marquardt / migrad / Nelder-Mead / Powell, start near the '
         'truth or default. Non-trivial: at least 3 parameters, or total least squares, or correlated chi-square, or '
         'data sharing an ensemble (incl. priors); distinct = distinct spec hash. Fits that report non-convergence and '
-        'solutions with cond(H) > 1e9 are counted as skipped.')
+        'solutions whose Jacobi-scaled Hessian has a condition number > 1e7 are counted as skipped.')
 ASSUMPTIONS = [
     'the oracle differentiates its own implementation of the documented chi-square with second-order jets (exact '
     'product / chain rule, self-checked against central differences at import); the model formula is the input',
     'weights are the ones documented: 1/dvalue^2 of the data, pyerrors.covariance(correlation=True) for the estimated '
     'correlated chi-square (trusted, C06), L^T L for a supplied inverse Cholesky factor L',
-    'stationarity is judged through the Newton step H^-1 grad relative to the formal parameter resolution '
-    'sqrt(2 |H^-1|_kk): 1e-5 (Levenberg-Marquardt: forward-difference Jacobian inside MINPACK, rel. 1e-8, times residual norm), '
-    '1e-5 (ODR), 5e-2 (migrad, EDM stopping rule 2e-7), 1e-3 (Nelder-Mead, Powell with tol 1e-12 on a quadratic minimum)',
-    'fluctuations: both sides evaluate the same formula at the same point, so only rounding of the linear solve enters: '
-    'tolerance 1e-8 * (1 + cond(H)*1e-9) of the summed term magnitude with autograd, 1e-4 with num_grad (numdifftools)',
-    'finite-difference response: symmetric quotient with shifts of 0.05-0.2 sigma; tolerance 1e-3 of the largest '
-    'whitened sensitivity of the parameter (minimiser accuracy / shift size; third-order terms are < 1e-6)',
-    'total vs ordinary least squares with dx ~ 1e-6 dy: 1e-4 of the parameter resolution (accuracy of the two minimisers)',
+    'stationarity is judged through the Newton step H^-1 grad of the reference chi-square relative to the formal '
+    'parameter resolution sqrt(2 (H^-1)_kk); allowed: 1e-4 Levenberg-Marquardt (MINPACK forward-difference Jacobian, '
+    'measured <= 1.2e-6), 1e-4 Nelder-Mead / Powell (tol 1e-12 on chi2, measured <= 1e-6), 5e-3 migrad (EDM rule, '
+    'measured <= 1e-4), 10*sqrt(1.5e-8*chi2) ODR (sstol = sqrt(eps) on the sum of squares, measured <= 4e-5)',
+    'fluctuations: both sides evaluate the same formula at the same point, so only the rounding of the linear solve '
+    '(eps * cond(H), measured <= 40 eps cond) or the accuracy of numdifftools (measured <= 1.5e-11 * cond) enters: '
+    'tolerance (1e-9 + 1e-13 cond(H)) of the largest term of the sum with autograd, (1e-7 + 1e-9 cond(H)) with num_grad',
+    'finite-difference response: symmetric quotients with shifts c and c/2 sigma (c = 0.05-0.2) combined by one Richardson '
+    'step (removes the third-order term of the response); tolerance (1e-3 + 10 t^2) of the largest whitened sensitivity of '
+    'the parameter, t = measured relative third-order part (cases with t > 1e-2 are skipped as not in the linear regime), '
+    'plus twice the measured distance (Newton step) of the re-fits from their exact stationary points divided by the shift',
+    'total vs ordinary least squares with sample noise of x 1e-6 of that of y: values within 1e-6 of the parameter '
+    'resolution plus twice the measured Newton steps of the two fits; fluctuations and errors within 1e-4 + cond(H) * '
+    '(Newton steps / resolution) * (resolution / |p|) (change of the sensitivities between the two stopping points; '
+    'cases where this exceeds 1e-2 are skipped)',
 ]
 
 LS_FAMILIES = ['exp1', 'exp', 'exp', 'expc', 'cosh', 'rational', 'coshc', 'twod', 'twod4', 'lin', 'cmb']
 TLS_FAMILIES = ['exp1', 'exp', 'exp', 'expc', 'cosh', 'rational', 'coshc', 'twod', 'twod4', 'lin', 'lin']
-COND_MAX = 1e9
+COND_MAX = 1e7
 fl = gen.fl
 TRACE = None     # development aid: list collecting measured deviations (never set by the harness)
 
@@ -142,10 +149,6 @@ def point_chains(draw, base, identical, sigma, wcs=(0.0, 0.3, 0.6, 0.9)):
     return chains
 
 
-def npoints(pt):
-    return sum(len(c['idl']) for c in pt['chains'])
-
-
 @st.composite
 def abscissae(draw, fam, n, ints=False):
     M = F.MODELS[fam]
@@ -180,7 +183,7 @@ def fit_case(draw, tier, kind, fd=False, negligible_x=False):
     if kind == 'ls' and not negligible_x:
         corr = draw(st.sampled_from([None, None, None, 'est', 'supplied']))
     nmax = 6 if num_grad else (7 if kind == 'tls' else 9)
-    nlo = npar + 1 + (1 if members else 0)
+    nlo = npar + 1 + (1 if (members or npar >= 4) else 0)
     n = draw(st.integers(nlo, max(nlo, nmax)))
     if members:
         na = draw(st.integers(2, n - 2)) if n >= 4 else 2
@@ -322,7 +325,6 @@ class Case:
 
 def build(spec, shift=None):
     """shift = (target, eps): target as in spec['fd']['target'], eps absolute"""
-    import pyerrors as pe
     c = Case()
     c.spec = spec
     c.kind = spec['kind']
@@ -387,7 +389,7 @@ def weight_matrix(c):
         return np.diag(1.0 / dy ** 2), {}
     if o['corr'] == 'est':
         corr = pe.covariance(list(c.y), correlation=True)
-        if np.linalg.cond(corr) > 1e4:
+        if np.linalg.cond(corr) > 1e6:
             raise Skip('estimated correlation matrix ill-conditioned')
         C = np.diag(dy) @ corr @ np.diag(dy)
         return np.linalg.inv(C), {'correlated_fit': True}
@@ -525,43 +527,59 @@ def tls_reference(c, pvals, xplus):
     return (chi,) + F.ift(chi, c.npar + m)
 
 
-def resolution(H):
-    Hi = np.linalg.inv(H)
-    return np.sqrt(2.0 * np.abs(np.diag(Hi)))
+STAT_TOL = {'LM': 1e-4, 'migrad': 5e-3, 'Nelder-Mead': 1e-4, 'Powell': 1e-4}
 
 
-STAT_TOL = {'LM': 1e-5, 'ODR': 1e-5, 'migrad': 5e-2, 'Nelder-Mead': 1e-3, 'Powell': 1e-3}
+def stat_tol(method, chi2):
+    """allowed Newton step in units of the parameter resolution, from the stopping rules of the minimisers:
+    LM (MINPACK lmdif, run until no progress): forward-difference Jacobian with relative step 1.5e-8, so the point
+       found is stationary for J+E, |E|/|J| ~ 1e-8 * curvature; step ~ 1e-8 * O(10) * |residual| <= 1e-6, margin 100;
+    Nelder-Mead / Powell with tol=1e-12 on chi2: (step/res)^2 ~ 1e-12, margin 100;
+    migrad: EDM < 0.002 * tol(1e-4) => (step/res)^2 <~ 2e-7, margin 10;
+    ODR: relative change of the sum of squares < sstol = sqrt(eps) = 1.5e-8 => (step/res)^2 <~ 1.5e-8 * chi2, margin 10."""
+    if method == 'ODR':
+        return 10.0 * math.sqrt(1.5e-8 * max(chi2, 1.0))
+    return STAT_TOL[method]
 
 
-def judge_stationarity(what, method, g, H, newton, npar):
-    cond = float(np.linalg.cond(H))
-    if not np.isfinite(cond) or cond > COND_MAX:
+def judge_stationarity(what, method, g, H, newton, cond, npar, chi2):
+    if newton is None or cond > COND_MAX:
         raise Skip('solution with ill-conditioned Hessian')
-    res = resolution(H)
+    res = F.resolution(H)
     ratio = np.abs(newton) / res
+    tol = stat_tol(method, chi2)
     k = int(np.argmax(ratio[:npar]))
-    require(ratio[k] <= STAT_TOL[method],
+    require(ratio[k] <= tol,
             '%s: returned values are not a stationary point of the documented chi-square: Newton step of parameter %d is '
-            '%.3g of its resolution %.3g (allowed %.1g for %s); gradient %r' % (what, k, ratio[k], res[k], STAT_TOL[method], method, g[:npar].tolist()))
+            '%.3g of its resolution %.3g (allowed %.1g for %s); gradient %r' % (what, k, ratio[k], res[k], tol, method, g[:npar].tolist()))
     # the internal abscissae of a total least-squares fit
     if len(ratio) > npar:
         j = int(np.argmax(ratio[npar:])) + npar
-        require(ratio[j] <= STAT_TOL[method],
+        require(ratio[j] <= tol,
                 '%s: returned xplus is not stationary: Newton step of entry %d is %.3g of its resolution' % (what, j - npar, ratio[j]))
     trace(stat=float(np.max(ratio)), method=method, cond=cond)
-    return cond, float(np.max(ratio))
 
 
-def judge_fluctuations(what, params, pvals, S, operands, cond, num_grad):
-    tol = 1e-4 if num_grad else 1e-8 * (1.0 + cond * 1e-9)
+def judge_fluctuations(what, params, pvals, S, H, operands, sig, cond, num_grad):
+    """fluctuations of parameter k = sum_j S_kj * fluctuations of datum j (RefObs.combine).  The tolerance is relative
+    to the largest term of the sum: a datum to which a parameter is (nearly) insensitive contributes rounding noise."""
+    condu = max(cond, float(np.linalg.cond(H)))     # the library solves the unscaled system
+    if condu > 1e9:
+        raise Skip('solution with ill-conditioned Hessian')
+    tol = (1e-7 + 1e-9 * condu) if num_grad else (1e-9 + 1e-13 * condu)
     for k, o in enumerate(params):
         pk = float(pvals[k])
         ref = combine(lambda v, pk=pk: pk, list(S[k]), operands, value=pk)
+        big = max(list(ref.mag.values()) + [0.0])
+        white = float(np.max(np.abs(S[k] * sig)))
         if TRACE is not None:
             for n in ref.d:
                 if n in o.deltas and len(o.deltas[n]) == len(ref.d[n]):
                     a = np.array([ref.d[n][cf] for cf in sorted(ref.d[n])])
-                    trace(fluct=float(np.max(np.abs(a - o.deltas[n])) / ref.mag[n]), num_grad=num_grad, cond=cond)
+                    trace(fluct=float(np.max(np.abs(a - o.deltas[n])) / big), num_grad=num_grad, cond=cond)
+        ref.mag = {n: big for n in ref.mag}
+        # gradient with respect to a covariance input (string prior) of error e: same whitened scale
+        ref.cgmag = {n: white / math.sqrt(float(cv[0][0, 0])) for n, cv in ref.cg.items()}
         cmp_obs(ref, o, '%s parameter %d' % (what, k), rtol=0.0, vtol=1e-12, check_rv=False, atol_scale=tol)
 
 
@@ -570,7 +588,7 @@ def same_obs(what, a, b):
     cmp_obs(RefObs.from_pe(a), b, what, rtol=1e-10, vtol=1e-12, check_rv=False, atol_scale=1e-12)
 
 
-def labels(c, res=None):
+def labels(c):
     o = c.spec['opts']
     labs = {'family:' + c.fam, 'npar:%d' % c.npar, 'layout:' + c.spec['layout'], 'corr:%s' % o['corr'],
             'method:' + (o['method'] if c.kind == 'ls' else 'ODR'), 'guess:' + o['guess'],
@@ -596,19 +614,27 @@ def labels(c, res=None):
 # ==============================================================================================
 # oracles
 
+class Judged:
+    """what the judgement of one fit leaves for the sub-properties that compare several fits"""
+
+
 def judge_ls(c, res, W):
     pvals = [float(o.value) for o in res.fit_parameters]
     require(len(pvals) == c.npar, 'number of fit parameters', len(pvals), c.npar)
     pv, pe_, pr = prior_data(c, res)
-    chi, g, H, S, newton = ls_reference(c, pvals, W, pv, pe_)
+    chi, g, H, S, newton, cond = ls_reference(c, pvals, W, pv, pe_)
     method = c.spec['opts']['method']
-    cond, _ = judge_stationarity('least_squares', method, g, H, newton, c.npar)
+    judge_stationarity('least_squares', method, g, H, newton, cond, c.npar, chi.v)
     require(abs(res.chisquare - chi.v) <= 1e-8 * abs(chi.v) + 1e-10,
             'reported chisquare %r is not the documented chi-square at the returned values, %r' % (res.chisquare, chi.v))
     dof = c.n - c.npar + len(c.pri_pos)
     require(res.dof == dof, 'dof is %r, data points - parameters + priors = %d' % (res.dof, dof))
-    judge_fluctuations('least_squares', res.fit_parameters, pvals, S, c.yref + pr, cond, c.spec['opts']['num_grad'])
-    return pvals, S, H
+    sig = np.array([o.dvalue for o in c.y] + list(pe_))
+    judge_fluctuations('least_squares', res.fit_parameters, pvals, S, H, c.yref + pr, sig, cond, c.spec['opts']['num_grad'])
+    j = Judged()
+    j.pvals, j.S, j.H, j.newton = np.array(pvals), S, H, newton
+    j.sig = sig
+    return j
 
 
 def ls_oracle(spec):
@@ -618,9 +644,12 @@ def ls_oracle(spec):
     res = run_ls(c, kw)
     judge_ls(c, res, W)
     nt, labs = labels(c)
-    if c.fam == 'lin' and not spec['priors'] and spec['opts']['corr'] is None:
-        # fit_lin with numbers as abscissae is this fit
-        kw2 = {}
+    if c.fam == 'lin' and not any(it['kind'] == 'str' for it in (spec['priors'] or {'items': []})['items']):
+        # fit_lin with numbers as abscissae is this fit (keyword arguments are passed on; string priors are left out
+        # because the library gives them a random name per call)
+        kw2 = dict(kw)
+        if c.pri_arg is not None:
+            kw2['priors'] = c.pri_arg
         if guess(c) is not None:
             kw2['initial_guess'] = guess(c)
         if spec['opts']['method'] != 'LM':
@@ -635,20 +664,25 @@ def ls_oracle(spec):
     return {'nt': nt, 'cls': labs}
 
 
-def judge_tls(c, res):
+def judge_tls(c, res, fluct=True):
     pvals = [float(o.value) for o in res.fit_parameters]
     require(len(pvals) == c.npar, 'number of fit parameters', len(pvals), c.npar)
     nd = len(c.xo)
     xplus = np.asarray(res.xplus, dtype=float)
     require(xplus.shape == ((c.n,) if nd == 1 else (nd, c.n)), 'shape of xplus', xplus.shape)
-    chi, g, H, S, newton = tls_reference(c, pvals, xplus)
-    cond, _ = judge_stationarity('total_least_squares', 'ODR', g, H, newton, c.npar)
+    chi, g, H, S, newton, cond = tls_reference(c, pvals, xplus)
+    judge_stationarity('total_least_squares', 'ODR', g, H, newton, cond, c.npar, chi.v)
     require(abs(res.odr_chisquare - chi.v) <= 1e-8 * abs(chi.v) + 1e-10,
             'reported odr_chisquare %r is not the documented chi-square (with x-residual term) at the returned values, %r' % (res.odr_chisquare, chi.v))
     require(res.dof == c.n - c.npar, 'dof is %r, data points - parameters = %d' % (res.dof, c.n - c.npar))
     ops = [r for row in c.xref for r in row] + c.yref
-    judge_fluctuations('total_least_squares', res.fit_parameters, pvals, S, ops, cond, c.spec['opts']['num_grad'])
-    return pvals, S, H
+    sig = np.array([o.dvalue for row in c.xo for o in row] + [o.dvalue for o in c.y])
+    if fluct:
+        judge_fluctuations('total_least_squares', res.fit_parameters, pvals, S, H, ops, sig, cond, c.spec['opts']['num_grad'])
+    j = Judged()
+    j.pvals, j.S, j.H, j.newton = np.array(pvals), S, H, newton
+    j.sig = sig
+    return j
 
 
 def tls_oracle(spec):
@@ -679,59 +713,84 @@ def fd_oracle(spec):
     tgt = spec['fd']['target']
     if c.kind == 'ls':
         W, kw = weight_matrix(c)
-        res = run_ls(c, kw)
-        pvals, S, H = judge_ls(c, res, W)
-        sig = [o.dvalue for o in c.y] + [o.dvalue if o is not None else None for o in c.pri_obs]
+        j0 = judge_ls(c, run_ls(c, kw), W)
         col = tgt[1] if tgt[0] == 'y' else c.n + tgt[1]
     else:
-        res = run_tls(c)
-        pvals, S, H = judge_tls(c, res)
-        sig = [o.dvalue for row in c.xo for o in row] + [o.dvalue for o in c.y]
-        m = len(c.xo) * c.n
-        col = (tgt[1] * c.n + tgt[2]) if tgt[0] == 'x' else m + tgt[1]
-    # whitened sensitivities: movement of the parameters under a one-sigma shift of each datum
-    white = np.array([[S[k, j] * sig[j] if sig[j] is not None else 0.0 for j in range(S.shape[1])] for k in range(c.npar)])
+        j0 = judge_tls(c, run_tls(c))
+        col = (tgt[1] * c.n + tgt[2]) if tgt[0] == 'x' else len(c.xo) * c.n + tgt[1]
+    S, sig = j0.S, j0.sig
+    start = dict(spec, opts=dict(spec['opts'], guess='near', guess_fac=[float(p / t) for p, t in zip(j0.pvals, spec['ptrue'])]))
+
+    def quotient(eps):
+        """symmetric difference quotient of the re-fitted parameters and the distance of the two re-fits from their exact
+        stationary points (each judged to be within the stopping accuracy of the minimiser), in the same units"""
+        out = []
+        for sgn in (+1.0, -1.0):
+            cs = build(spec, shift=(tgt, sgn * eps))
+            cs.spec = start      # start from the solution of the unshifted problem
+            if c.kind == 'ls':
+                Ws, kws = weight_matrix(cs)
+                require(np.allclose(Ws, W, rtol=1e-9, atol=0), 'weights changed under a constant shift of one datum')
+                out.append(judge_ls(cs, run_ls(cs, kws), Ws))
+            else:
+                out.append(judge_tls(cs, run_tls(cs)))
+        return ((out[0].pvals - out[1].pvals) / (2.0 * eps),
+                (np.abs(out[0].newton[:c.npar]) + np.abs(out[1].newton[:c.npar])) / (2.0 * eps))
     eps = spec['fd']['c'] * sig[col]
-    out = []
-    for sgn in (+1.0, -1.0):
-        cs = build(spec, shift=(tgt, sgn * eps))
-        # start from the solution of the unshifted problem
-        cs.spec = dict(spec, opts=dict(spec['opts'], guess='near', guess_fac=[p / t for p, t in zip(pvals, spec['ptrue'])]))
-        if c.kind == 'ls':
-            Ws, kws = weight_matrix(cs)
-            require(np.allclose(Ws, W, rtol=1e-9, atol=0), 'weights changed under a constant shift of one datum')
-            r = run_ls(cs, kws)
-        else:
-            r = run_tls(cs)
-        out.append(np.array([float(o.value) for o in r.fit_parameters]))
-    quot = (out[0] - out[1]) / (2.0 * eps)
+    q1, s1 = quotient(eps)
+    q2, s2 = quotient(0.5 * eps)
+    # q(eps) = S + a eps^2 + O(eps^4): Richardson step removes the third-order term of the response
+    quot = (4.0 * q2 - q1) / 3.0
+    slack = (4.0 * s2 + s1) / 3.0
     for k in range(c.npar):
-        scale = float(np.max(np.abs(white[k]))) / sig[col]
-        require(abs(quot[k] - S[k, col]) <= FD_TOL * scale,
+        # whitened sensitivities: movement of parameter k under a one-sigma shift of each datum
+        scale = float(np.max(np.abs(S[k] * sig))) / sig[col]
+        nonlin = abs(q1[k] - q2[k]) / scale
+        trace(fd=abs(quot[k] - S[k, col]) / scale, fdslack=slack[k] / scale, fdnonlin=nonlin, kind=c.kind)
+        if nonlin > 1e-2:
+            raise Skip('response to the shift not in the linear regime')
+        require(abs(quot[k] - S[k, col]) <= (FD_TOL + 10.0 * nonlin ** 2) * scale + 2.0 * slack[k],
                 'shifting datum %r by +-%.3g and re-fitting moves parameter %d by %.10g per unit shift, the implicit-function '
-                'rule predicts %.10g (largest sensitivity of this parameter in these units %.3g)' % (tgt, eps, k, quot[k], S[k, col], scale))
+                'rule predicts %.10g (largest sensitivity of this parameter in these units %.3g, minimiser slack %.3g, '
+                'third-order part of the response %.3g)' % (tgt, eps, k, quot[k], S[k, col], scale, slack[k], nonlin * scale))
     nt, labs = labels(c)
     labs.append('shift:' + tgt[0])
     return {'nt': nt, 'cls': labs}
 
 
 def tls_vs_ls_oracle(spec):
-    import pyerrors as pe
     c = build(spec)
     rt = run_tls(c)
-    pv, S, Ht = judge_tls(c, rt)
+    # stationarity, odr_chisquare and dof of the total fit are judged here; its fluctuations are judged below against
+    # the ordinary fit (with x errors a million times smaller than the y errors the unscaled linear solve inside the
+    # library loses the - irrelevant, 1e-6 of the total - x terms to rounding, which the 1e-8 tolerance of the
+    # implicit-function comparison would flag although the region is deliberately not a well-scaled one)
+    jt = judge_tls(c, rt, fluct=False)
     # ordinary fit at the central values of the abscissae
     c2 = build(dict(spec, kind='ls', x=[[o.value for o in row] for row in c.xo]))
     W, kw = weight_matrix(c2)
     rl = run_ls(c2, kw)
-    pl, Sl, Hl = judge_ls(c2, rl, W)
-    rsl = resolution(Hl)
+    jl = judge_ls(c2, rl, W)
+    rsl = F.resolution(jl.H)
+    condl = float(np.linalg.cond(jl.H))
     for k in range(c.npar):
-        require(abs(pv[k] - pl[k]) <= 1e-4 * rsl[k],
-                'total least squares with negligible x errors gives parameter %d = %.14g, least_squares %.14g (resolution %.3g)' % (k, pv[k], pl[k], rsl[k]))
+        # both fits are within their stopping accuracy of the respective stationary points (judged above); the
+        # stationary points themselves differ by O((f' dx / dy)^2) ~ 1e-12
+        slack = abs(jt.newton[k]) + abs(jl.newton[k])
+        trace(tvl_val=abs(jt.pvals[k] - jl.pvals[k]) / rsl[k], tvl_slack=slack / rsl[k])
+        require(abs(jt.pvals[k] - jl.pvals[k]) <= 1e-6 * rsl[k] + 2.0 * slack,
+                'total least squares with negligible x errors gives parameter %d = %.14g, least_squares %.14g (resolution %.3g, '
+                'minimiser slack %.3g)' % (k, jt.pvals[k], jl.pvals[k], rsl[k], slack))
     for k in range(c.npar):
         a, b = rt.fit_parameters[k], rl.fit_parameters[k]
         big = max(float(np.max(np.abs(b.deltas[n]))) for n in b.deltas)
+        # the two fits stop at slightly different points (slack, in units of the resolution); the sensitivities
+        # S = -H^-1 M change by at most cond(H) * |dH|/|H| ~ cond(H) * slack * (resolution / |p|) between them
+        relres = float(np.max(rsl / np.abs(jl.pvals)))
+        slack = float(np.max((np.abs(jt.newton[:c.npar]) + np.abs(jl.newton)) / rsl))
+        tol = TVL_TOL + condl * slack * relres
+        if tol > 1e-2:
+            raise Skip('sensitivities too steep for a comparison of two minimisers')
         for n in a.deltas:
             da = np.asarray(a.deltas[n])
             if n in b.deltas:
@@ -740,28 +799,29 @@ def tls_vs_ls_oracle(spec):
             else:
                 db = np.zeros_like(da)
             dev = float(np.max(np.abs(da - db)))
-            require(dev <= 1e-4 * big, 'fluctuations of parameter %d on %s differ between total (negligible x errors) and ordinary '
-                    'least squares by %.3g (largest fluctuation %.3g)' % (k, n, dev, big))
+            trace(tvl_fluct=dev / big, tvl_tol=tol)
+            require(dev <= tol * big, 'fluctuations of parameter %d on %s differ between total (negligible x errors) and ordinary '
+                    'least squares by %.3g (largest fluctuation %.3g, allowed fraction %.3g)' % (k, n, dev, big, tol))
         require(set(b.deltas) <= set(a.deltas), 'chains missing in the total least-squares result', sorted(set(b.deltas) - set(a.deltas)))
-        try:
-            a.gamma_method()
-            b.gamma_method()
-        except ValueError:
-            continue
-        require(abs(a.dvalue - b.dvalue) <= 1e-4 * b.dvalue, 'error of parameter %d: total %.10g vs ordinary %.10g' % (k, a.dvalue, b.dvalue))
+        a.gamma_method()
+        b.gamma_method()
+        trace(tvl_err=abs(a.dvalue - b.dvalue) / b.dvalue)
+        require(abs(a.dvalue - b.dvalue) <= tol * b.dvalue, 'error of parameter %d: total %.10g vs ordinary %.10g' % (k, a.dvalue, b.dvalue))
     nt, labs = labels(c)
     return {'nt': nt, 'cls': labs}
 
 
+TVL_TOL = 1e-4
+
 SUBS = [
-    Sub('ls', lambda tier: fit_case(tier, 'ls'), ls_oracle, {'quick': 40, 'thorough': 800}, {'quick': 16, 'thorough': 16},
+    Sub('ls', lambda tier: fit_case(tier, 'ls'), ls_oracle, {'quick': 60, 'thorough': 2000}, {'quick': 16, 'thorough': 16},
         doc='least_squares: stationarity, chisquare/dof, implicit-function fluctuations', max_skip_frac=0.3),
-    Sub('tls', lambda tier: fit_case(tier, 'tls'), tls_oracle, {'quick': 25, 'thorough': 500}, {'quick': 16, 'thorough': 16},
+    Sub('tls', lambda tier: fit_case(tier, 'tls'), tls_oracle, {'quick': 35, 'thorough': 1000}, {'quick': 16, 'thorough': 16},
         doc='total_least_squares: stationarity incl. x-residual, odr_chisquare/dof, fluctuations, fit_lin dispatch', max_skip_frac=0.3),
     Sub('fd', lambda tier: st.one_of(fit_case(tier, 'ls', fd=True), fit_case(tier, 'tls', fd=True)), fd_oracle,
-        {'quick': 15, 'thorough': 300}, {'quick': 16, 'thorough': 16},
+        {'quick': 20, 'thorough': 600}, {'quick': 16, 'thorough': 16},
         doc='shift of one datum + re-fit equals the predicted first-order amount', max_skip_frac=0.3),
     Sub('tls_vs_ls', lambda tier: fit_case(tier, 'tls', negligible_x=True), tls_vs_ls_oracle,
-        {'quick': 12, 'thorough': 250}, {'quick': 8, 'thorough': 16},
+        {'quick': 20, 'thorough': 500}, {'quick': 8, 'thorough': 16},
         doc='total least squares with negligible x errors equals the ordinary fit', max_skip_frac=0.3),
 ]
